@@ -132,7 +132,11 @@ func (db *DB) put(tx *bbolt.Tx, obj *object.Object, nestingLevel int, currEpoch 
 	case exists:
 		return diff, nil
 	case errors.As(err, &apistatus.ObjectNotFound{}):
-		// OK, we're putting here.
+		// Marked as garbage. If the object is still indexed (not collected
+		// yet), indexes and counters include it already.
+		if _, typErr := fetchTypeForID(metaBkt.Cursor(), obj.GetID()); typErr == nil {
+			return diff, nil
+		}
 	case err != nil:
 		return diff, err // return any other errors
 	}
